@@ -21,6 +21,9 @@ WEIGHTS = dict(base=1, cell=1, create=5, prop=8, method=8, garbage=0, position=3
 CLEAN = ('unknown-prop', 'unknown-method', 'unknown-nested', 'unknown-position', 'prop-index', 'method-index', 'prop-truncated',
          'method-truncated')
 DIRTY = ('create-bad-type', 'create-truncated', 'create-trailing', 'nested-garbage', 'short-packet')
+# failing packets that cannot legitimately have invoked a subscriber before they failed (creation packets that fail late may have
+# delivered some property values first): for these the invocation log must equal that of the stream without them, too
+LOG_CLEAN = CLEAN + ('short-packet', 'create-bad-type', 'nested-garbage')
 
 
 def make_fault(rng, h, kind, subscribed):
@@ -130,6 +133,7 @@ def _worker(cfg):
             _, strict, _ = histcheck.run_history(None, st, dialect, packets, strict=True, subs=subs)
             fault_kinds = [packets[i][2].get('fault', packets[i][2]['kind']) for i in failed]
             clean_only = all(k in CLEAN for k in fault_kinds)
+            log_clean = all(k in LOG_CLEAN for k in fault_kinds)
             # failing packets that are allowed to leave a partial effect in the unchanged design:
             # a player-creation packet on an already known entity, a pose copy from an entity
             # whose type lacks a volatile; everything else must leave the world as it was
@@ -142,7 +146,7 @@ def _worker(cfg):
             if world_clean:
                 filtered = [p for i, p in enumerate(packets) if i not in failed]
                 _, lf, _ = histcheck.run_history(None, st, dialect, filtered, strict=False, subs=subs)
-                if lf['world'] != lenient['world'] or (clean_only and lf['log'] != lenient['log']):
+                if lf['world'] != lenient['world'] or (log_clean and lf['log'] != lenient['log']):
                     problem = 'lenient result differs from playing the stream without the %d failing packets: %s' % (
                         len(failed), histcheck.compare_worlds(lenient['world'], lf['world']) or histcheck.first_log_diff(lenient['log'], lf['log']))
                 if lf.get('end') != 'finished':
